@@ -157,7 +157,17 @@ def run(tier):
     wd = common.subdir('c20')
     rng = common.rng(PID)
     shim = os.path.join(wd, 'audit_shim.so')
-    rc, o, e = common.sh(['gcc', '-shared', '-fPIC', '-O1', '-o', shim, os.path.join(common.VERIF, 'harness', 'audit_shim.c'), '-ldl'])
+    rc, o, e = common.sh(['gcc', '-Wall', '-Werror', '-shared', '-fPIC', '-O1', '-o', shim, os.path.join(common.VERIF, 'harness', 'audit_shim.c'), '-ldl'])
+    if rc == 0:
+        # the monitor must be seen to fire: a program that calls setlocale and time under the shim
+        tsrc = os.path.join(wd, 'shimtest.c')
+        common.write(tsrc, '#include <locale.h>\n#include <time.h>\nint main(void) { setlocale(LC_ALL, ""); return time(0) == 0; }\n')
+        common.sh(['gcc', '-o', os.path.join(wd, 'shimtest'), tsrc])
+        lg = os.path.join(wd, 'shimtest.log')
+        subprocess.run([os.path.join(wd, 'shimtest')], env={'LD_PRELOAD': shim, 'C20_AUDIT_LOG': lg})
+        seen = open(lg).read() if os.path.exists(lg) else ''
+        if 'setlocale' not in seen or 'time' not in seen:
+            raise common.HarnessError('the LD_PRELOAD audit shim does not record calls (self-test log: %r)' % seen[:100])
     if rc != 0:
         raise common.HarnessError('shim build failed: ' + e.decode())
     files = [('suite:' + os.path.basename(p), p) for p in sorted(glob.glob(os.path.join(common.REPO, 'test', '*.c')))]
